@@ -40,7 +40,7 @@ Check(e) ==
 
 Init == tid \in 1..Len(Traces) /\ l = 1 /\ verdict = "ok"
 Step == /\ verdict = "ok" /\ l <= Len(Traces[tid])
-        /\ verdict' = Check(Traces[tid][l])
+        /\ verdict' = IF Traces[tid][l].ev \notin {"CVaR"} THEN "unknown_event" ELSE Check(Traces[tid][l])
         /\ l' = IF verdict' = "ok" THEN l + 1 ELSE l
         /\ UNCHANGED tid
 Next == Step
